@@ -100,7 +100,7 @@ let handle (x : Sexp.t) : string =
             incr n_runs;
             (match queries_of_fail rest with
              | Some qs ->
-                 (match witness_tie ~exact_bad_names:(r.r_simp <> "simplified") the_sys nm w qs with
+                 (match witness_tie ~exact_bad_names:(r.r_simp <> "simplified" && r.r_session <> "child") the_sys nm w qs with
                   | Some d -> if !wit_diff = None then wit_diff := Some (Printf.sprintf "%s: %s" (run_tag r) d)
                   | None -> incr n_tie)
              | None -> ());
